@@ -1,4 +1,5 @@
 import CedarVerif.Lemmas.TpeViews
+import CedarVerif.Lemmas.TpeQuery
 /-
 C14 — type-aware partial evaluation and permission queries are sound.  Property theorems only
 (helpers: Lemmas/Tpe*.lean).  Model: Cedar/Tpe.lean (`Residual`, `interpret`, `Tpe.Response`, views, `reauthorize`, queries).
@@ -117,5 +118,86 @@ theorem views_agree_full_fails : ∃ r : Tpe.Response, r.UniqueIds ∧ r.WF ∧ 
     subst hrp
     have : orig.condition = (ResidualPolicy.toPolicy ⟨"p0", .permit, res, orig⟩).condition := by rw [← heq]
     simp [orig, ResidualPolicy.toPolicy, residualCondition] at this
+
+/-- **query_exact** (given TPE soundness of the definite decision for the candidate completions, `hsound` — which is
+`tpe_table_sound` + `interpret` soundness): `query_resource` returns exactly the candidate entities (the entities of
+the store of the queried type) for which the concrete request is allowed by the input policies; likewise
+`query_principal`.  The undecided arm is exact outright (it re-authorizes every candidate over `policy_set()`). -/
+theorem query_exact (tps : List TPolicy) (ctx : List (String × Value)) (es : Entities) :
+    (∀ (principal action : EntityUID) (rty : EntityType) (us : List EntityUID),
+      queryResource tps principal action rty ctx es = some us →
+      (∀ resp, Tpe.isAuthorized ⟨⟨principal.ty, some principal.eid⟩, action, ⟨rty, none⟩, some ctx⟩ (Tpe.PEntities.ofConcrete es) tps = some resp →
+        ∀ d, resp.decision = some d → ∀ u, u ∈ candidates es rty →
+          (Cedar.isAuthorized ⟨principal, action, u, ctx⟩ es (tps.map (·.policy))).decision = d) →
+      ∀ u, u ∈ us ↔ u ∈ candidates es rty ∧
+        (Cedar.isAuthorized ⟨principal, action, u, ctx⟩ es (tps.map (·.policy))).decision = .allow) ∧
+    (∀ (pty : EntityType) (action resource : EntityUID) (us : List EntityUID),
+      queryPrincipal tps pty action resource ctx es = some us →
+      (∀ resp, Tpe.isAuthorized ⟨⟨pty, none⟩, action, ⟨resource.ty, some resource.eid⟩, some ctx⟩ (Tpe.PEntities.ofConcrete es) tps = some resp →
+        ∀ d, resp.decision = some d → ∀ u, u ∈ candidates es pty →
+          (Cedar.isAuthorized ⟨u, action, resource, ctx⟩ es (tps.map (·.policy))).decision = d) →
+      ∀ u, u ∈ us ↔ u ∈ candidates es pty ∧
+        (Cedar.isAuthorized ⟨u, action, resource, ctx⟩ es (tps.map (·.policy))).decision = .allow) := by
+  constructor
+  · intro principal action rty us h hsound
+    unfold queryResource at h
+    simp only at h
+    cases hr : Tpe.isAuthorized ⟨⟨principal.ty, some principal.eid⟩, action, ⟨rty, none⟩, some ctx⟩ (Tpe.PEntities.ofConcrete es) tps with
+    | none => simp [hr] at h
+    | some resp =>
+      simp only [hr] at h
+      have hps := isAuthorized_policySet hr
+      exact query_arms (resp := resp) (auth := fun u ps => (Cedar.isAuthorized ⟨principal, action, u, ctx⟩ es ps).decision)
+        (concrete := fun u => (Cedar.isAuthorized ⟨principal, action, u, ctx⟩ es (tps.map (·.policy))).decision)
+        (fun u => by simp [hps]) h (hsound resp hr)
+  · intro pty action resource us h hsound
+    unfold queryPrincipal at h
+    simp only at h
+    cases hr : Tpe.isAuthorized ⟨⟨pty, none⟩, action, ⟨resource.ty, some resource.eid⟩, some ctx⟩ (Tpe.PEntities.ofConcrete es) tps with
+    | none => simp [hr] at h
+    | some resp =>
+      simp only [hr] at h
+      have hps := isAuthorized_policySet hr
+      exact query_arms (resp := resp) (auth := fun u ps => (Cedar.isAuthorized ⟨u, action, resource, ctx⟩ es ps).decision)
+        (concrete := fun u => (Cedar.isAuthorized ⟨u, action, resource, ctx⟩ es (tps.map (·.policy))).decision)
+        (fun u => by simp [hps]) h (hsound resp hr)
+
+/-- **query_action_sound** (given TPE soundness of the definite decision, `hsound`): for an action `a` of the list with
+TPE response `resp`, and a concrete completion whose decision is `dc`: if the completion is allowed, `a` is returned
+(never omitted); if `a` is labelled definitely allowed, the completion is allowed; and everything returned stems from
+an action whose TPE decision is not `Deny`, labelled with exactly that decision. -/
+theorem query_action_sound (acts : List (EntityUID × List TPolicy)) (p r : PUid) (ctx : Option (List (String × Value)))
+    (pes : Tpe.PEntities) :
+    (∀ a tps resp, (a, tps) ∈ acts → Tpe.isAuthorized ⟨p, a, r, ctx⟩ pes tps = some resp →
+      ∀ dc : Decision, (∀ d, resp.decision = some d → dc = d) →
+        (dc = .allow → (a, resp.decision) ∈ queryAction acts p r ctx pes) ∧ (resp.decision = some .allow → dc = .allow)) ∧
+    (∀ x, x ∈ queryAction acts p r ctx pes → ∃ tps resp, (x.1, tps) ∈ acts ∧
+      Tpe.isAuthorized ⟨p, x.1, r, ctx⟩ pes tps = some resp ∧ x.2 = resp.decision ∧ x.2 ≠ some .deny) := by
+  constructor
+  · intro a tps resp ha hr dc hsound
+    refine ⟨?_, fun h => hsound _ h⟩
+    intro hdc
+    unfold queryAction
+    apply List.mem_filterMap.mpr
+    refine ⟨(a, tps), ha, ?_⟩
+    simp only [hr]
+    have hne : (resp.decision == some Decision.deny) = false := by
+      cases hd : resp.decision with
+      | none => rfl
+      | some d => have := hsound d hd; subst this; subst hdc; rfl
+    simp [hne]
+  · intro x hx
+    unfold queryAction at hx
+    obtain ⟨⟨a, tps⟩, hm, hf⟩ := List.mem_filterMap.mp hx
+    simp only at hf
+    cases hr : Tpe.isAuthorized ⟨p, a, r, ctx⟩ pes tps with
+    | none => simp [hr] at hf
+    | some resp =>
+      simp only [hr] at hf
+      split at hf
+      · cases hf
+      · rename_i hne
+        simp only [Option.some.injEq] at hf; subst hf
+        exact ⟨tps, resp, hm, hr, rfl, by simpa using hne⟩
 
 end Cedar.C14
